@@ -24,7 +24,10 @@ func ParseTree(e sx.Sexp) (parent []int, forked []bool) {
 	for _, b := range tsNodes(e) {
 		must(!b, "no type-set loader in concurrent lines")
 	}
-	parent, forked, _ = parseLine([]sx.Sexp{e, sx.T("steps")})
+	for _, nd := range e.Args() {
+		must(nd.Tag() != "dep", "no dependency loader in concurrent lines")
+	}
+	parent, forked, _, _ = parseLine([]sx.Sexp{e, sx.T("steps")})
 	return
 }
 
@@ -34,11 +37,11 @@ func ParseSteps(n int, steps []sx.Sexp) []Step {
 	for i := 0; i < n; i++ {
 		tree = append(tree, sx.T("p", sx.Int(int64(i-1))))
 	}
-	_, _, st := parseLine([]sx.Sexp{sx.L(tree...), sx.L(append([]sx.Sexp{sx.A("steps")}, steps...)...)})
+	_, _, st, _ := parseLine([]sx.Sexp{sx.L(tree...), sx.L(append([]sx.Sexp{sx.A("steps")}, steps...)...)})
 	return st
 }
 
-func Build(parent []int, forked []bool) *World { return build(parent, forked, false, nil, nil) }
+func Build(parent []int, forked []bool) *World { return build(parent, forked, false, nil, nil, nil) }
 func NewRef(parent []int) *Ref                 { return newRef(parent, true) }
 func Safely(f func()) string                   { return safely(f) }
 func Canon(v interface{}) string               { return canon(v) }
